@@ -340,9 +340,41 @@ func c08SlowCache(ctx *Ctx) {
 	}
 }
 
+// c08Keyspace: a client that has USEd a keyspace prepares statements whose table name is unqualified; the backend refuses
+// such a PREPARE on a connection without a keyspace.  The proxy's own re-PREPAREs must travel on connections of the client's
+// keyspace too.
+func c08Keyspace(ctx *Ctx) {
+	hs := []int{1, 2, 3}
+	e := newC08Env(ctx, hs, hs, nil)
+	defer e.close()
+	e.be.StrictKeyspace = true
+	e.addClient(4, "")
+	ci := e.addClient(4, "")
+	_ = e.cs[ci].cl.Send(4, 1, &message.Query{Query: "USE ks1", Options: &message.QueryOptions{}})
+	if f, _ := e.cs[ci].cl.Next(5 * time.Second); f == nil || f.Opcode != byte(primitive.OpCodeResult) {
+		panic("c08: USE ks1 failed")
+	}
+	e.calibrate()
+	for _, q := range []string{"SELECT v FROM t WHERE k = ?", "INSERT INTO t (k, v) VALUES (?, 1)"} {
+		if !e.prepare(ci, q) {
+			continue
+		}
+		for k := 0; k < 3; k++ {
+			e.execute(ci, q, false, "execute:unqualified-table-in-the-client's-keyspace")
+		}
+		for _, h := range hs {
+			e.be.Forget(h)
+		}
+		for k := 0; k < 3; k++ {
+			e.execute(ci, q, k == 2, "execute:unqualified-table-after-every-host-forgot")
+		}
+	}
+}
+
 func genC08(ctx *Ctx) {
 	r := ctx.Rng
 	c08Saturated(ctx)
+	c08Keyspace(ctx)
 	c08SlowCache(ctx)
 	late := make(chan func(), 1)
 	go func() { late <- c08LateHost(ctx) }()
